@@ -95,8 +95,8 @@ class ACol(Stub):
     def __init__(self, frame: AFrame, col: str):
         self.frame, self.col = frame, col
 
-    def resample(self, rule, *a, **k):
-        if a or k:
+    def resample(self, rule=None, *a, **k):
+        if a or k or rule is None:
             raise Unsupported("resample() with extra arguments")
         return ARes(self, rule)
 
@@ -137,8 +137,9 @@ class ARes(Stub):
     def count(self, *a, **k):
         return self._agg("count(x)")
 
-    def _f(self, f, *a, **k):
-        if a or k:
+    def _f(self, f=None, *a, func=None, **k):
+        f = f if f is not None else func
+        if a or k or f is None:
             raise Unsupported("aggregator with extra arguments")
         return self._agg(symbolic_apply(_INTERP[0], f))
 
